@@ -234,6 +234,10 @@ func NewPool(kt string, code uint, variant string) *Pool {
 	rec("R01~a", "r0", c("r1"), c("v0"), failingPatch, nil, setDelta(sidetree.DeltaApplyFails), "legit", "")
 	rec("R01~w", "r0", c("r1"), c("v0"), svc("r01w"), late, nil, "legit", "")
 	rec("R01i", "r0", c("r1"), c("v0"), svc("r01i"), early, nil, "legit", "") // explicit window containing the grid
+	// recovers whose next update commitment is one the update chain has used before (the create's / the one U01 installs): an
+	// update anchored before such a recover fits its commitment but must not be applied on top of it
+	rec("R0>u0", "r0", c("r1"), c("u0"), svc("r0u0"), nil, nil, "legit", "")
+	rec("R0>u1", "r0", c("r1"), c("u1"), svc("r0u1"), nil, nil, "legit", "")
 	rec("R10", "r1", c("r0"), c("u0"), svc("r10"), nil, nil, "legit", "")
 	rec("R20", "r2", c("r0"), c("u0"), svc("r20"), nil, nil, "legit", "")
 	// self loop: the parser refuses it in every mode
